@@ -1,6 +1,8 @@
 /-
   C20 — resolveType augments only Vue's defineComponent and never overrides the user.
 -/
+import VueJsx.Props.C09
+import VueJsx.Lemmas.Frame
 import VueJsx.Visitor
 
 namespace VueJsx
@@ -201,6 +203,183 @@ theorem C20_user_wins_semantic {V : Type} (ρ : Nat → List (String × V)) (k :
 
 /-- non-vacuity: a user object `{a: 1, ...s0, b: 2}` where the spread operand provides `name` -/
 example : valOf (fun _ => [("name", 7)]) "name" (insertBeforeFirst isSpreadEnt [Ent.kv "a" 1, .spread 0, .kv "b" 2] (.kv "name" 0)) none = some 7 := by
+  decide
+
+/-! ### the gate stays closed: without an import of Vue's `defineComponent` no call is ever augmented -/
+
+def inertKind (k : K) : Bool :=
+  match k with
+  | .stmts | .arrow | .jsxElement | .jsxFragment | .jsxOpening | .importDecl | .call | .declarator | .assign => false
+  | _ => true
+
+mutual
+/-- a subtree no hook of the visitor reacts to (identifiers, literals, import specifiers, …) -/
+def Inert : Node → Bool
+  | .mk k _ ks => inertKind k && InertL ks
+def InertL : List Node → Bool
+  | [] => true
+  | n :: ns => Inert n && InertL ns
+end
+
+mutual
+theorem visit_inert (o : Opts) (env : Env) : ∀ (n : Node) (pos : Pos) (st : St), Inert n = true → visit o env n pos st = (n, st)
+  | .mk k as ks, pos, st, h => by
+    simp only [Inert, Bool.and_eq_true] at h
+    have hk := h.1
+    have ih := visitKids_inert o env ks k pos 0 st h.2
+    unfold visit
+    split
+    next => simp [inertKind] at hk
+    next => simp [inertKind] at hk
+    next =>
+      simp only [ih]
+      have hkh : kindHook o env (.mk k as ks) st = (.mk k as ks, st) := by
+        unfold kindHook
+        split
+        · rename_i heq; injection heq with h1; subst h1; simp [inertKind] at hk
+        · rename_i heq; injection heq with h1; subst h1; simp [inertKind] at hk
+        · rename_i heq; injection heq with h1; subst h1; simp [inertKind] at hk
+        · rename_i heq; injection heq with h1; subst h1; simp [inertKind] at hk
+        · rfl
+      simp only [hkh]
+      unfold exprHook
+      split
+      · rfl
+      · split
+        · rename_i heq; injection heq with h1; subst h1; simp [inertKind] at hk
+        · rename_i heq; injection heq with h1; subst h1; simp [inertKind] at hk
+        · rename_i heq; injection heq with h1; subst h1; simp [inertKind] at hk
+        · rfl
+theorem visitKids_inert (o : Opts) (env : Env) : ∀ (ks : List Node) (k : K) (pos : Pos) (i : Nat) (st : St),
+    InertL ks = true → visitKids o env k pos i ks st = (ks, st)
+  | [], _, _, _, _, _ => by simp [visitKids]
+  | c :: cs, k, pos, i, st, h => by
+    simp only [InertL, Bool.and_eq_true] at h
+    simp only [visitKids, visit_inert o env c (kidPos k pos i) st h.1, visitKids_inert o env cs k pos (i + 1) st h.2]
+end
+
+mutual
+/-- every import declaration of the tree is plain (nothing inside it the visitor reacts to) and does not bind Vue's
+    `defineComponent` -/
+def GoodImports : Node → Bool
+  | .mk k as ks => (if k == .importDecl then InertL ks && !importsDc (.mk k as ks) else true) && GoodImportsL ks
+def GoodImportsL : List Node → Bool
+  | [] => true
+  | n :: ns => GoodImports n && GoodImportsL ns
+end
+
+theorem ro_dc {a b : St} (h : a.ro = b.ro) : a.defineComponent = b.defineComponent := by
+  simp only [St.ro, Prod.mk.injEq] at h; exact h.2.1
+
+theorem openingHook_dc (n : Node) (st : St) : (openingHook n st).2.defineComponent = st.defineComponent := by
+  unfold openingHook
+  split
+  · split
+    · rfl
+    · simp only
+      split
+      · rfl
+      · split <;> rfl
+  · rfl
+
+theorem drainInto_dc (items : List Node) (st : St) : (drainInto items st).2.defineComponent = st.defineComponent := by
+  unfold drainInto
+  simp only
+  split <;> split <;> rfl
+
+theorem drainArrow_dc (n : Node) (st : St) : (drainArrow n st).2.defineComponent = st.defineComponent := by
+  unfold drainArrow
+  split
+  · split
+    · split
+      · rfl
+      · simp only
+        split <;> split <;> rfl
+    · rfl
+  · rfl
+
+theorem exprHook_dc (o : Opts) (env : Env) (pos : Pos) (n : Node) (st : St) :
+    (exprHook o env pos n st).2.defineComponent = st.defineComponent := by
+  unfold exprHook
+  split
+  · rfl
+  · split
+    · exact ro_dc (trElement_ro o env _ st)
+    · exact ro_dc (trFragment_ro o env _ st)
+    · rfl
+    · rfl
+
+mutual
+/-- **The gate stays closed.**  In a tree whose import declarations do not bind Vue's `defineComponent`, under EVERY
+    option set and however much JSX is lowered on the way, the visitor never records a binding — so (by
+    `isDefineComponentCall_none`) no call and no declarator is ever treated as Vue's `defineComponent`. -/
+theorem visit_dc_none (o : Opts) (env : Env) : ∀ (n : Node) (pos : Pos) (st : St), GoodImports n = true →
+    st.defineComponent = none → (visit o env n pos st).2.defineComponent = none
+  | .mk k as ks, pos, st, hg, hd => by
+    simp only [GoodImports, Bool.and_eq_true] at hg
+    have hgk := hg.2
+    unfold visit
+    split
+    next =>
+      simp only
+      rw [drainInto_dc]
+      exact visitKids_dc_none o env ks .stmts pos 0 _ hgk (by simpa [St.clearPending] using hd)
+    next params rest =>
+      simp only [GoodImportsL, Bool.and_eq_true] at hgk
+      simp only
+      rw [exprHook_dc]
+      simp only
+      rw [drainArrow_dc]
+      have h1 := visit_dc_none o env params (kidPos .arrow pos 0) st hgk.1 hd
+      exact visitKids_dc_none o env rest .arrow pos 1 _ hgk.2 (by simpa [St.clearPending] using h1)
+    next =>
+      simp only
+      rw [exprHook_dc]
+      have hk := visitKids_dc_none o env ks k pos 0 st hgk hd
+      -- the hook of this node
+      unfold kindHook
+      split
+      · exact (openingHook_dc _ _).trans hk
+      · -- an import declaration: its children are untouched and it does not bind defineComponent
+        rename_i heq
+        injection heq with h1 h2 h3
+        subst h1
+        have hin := hg.1
+        simp only [beq_self_eq_true, if_true, Bool.and_eq_true, Bool.not_eq_true'] at hin
+        have hkids := visitKids_inert o env ks .importDecl pos 0 st hin.1
+        rw [hkids] at h3 hk ⊢
+        subst h3 h2
+        simp only
+        rw [importHook_noDc _ _ _ _ hin.2]
+        exact hd
+      · simp only [callHook, isDefineComponentCall_none _ _ hk]
+        split <;> exact hk
+      · simp only [declaratorHook]
+        split
+        · exact hk
+        · split
+          · simp only [isDefineComponentCall_none _ _ hk]; exact hk
+          · exact hk
+      · exact hk
+theorem visitKids_dc_none (o : Opts) (env : Env) : ∀ (ks : List Node) (k : K) (pos : Pos) (i : Nat) (st : St),
+    GoodImportsL ks = true → st.defineComponent = none → (visitKids o env k pos i ks st).2.defineComponent = none
+  | [], _, _, _, st, _, hd => by simpa [visitKids] using hd
+  | c :: cs, k, pos, i, st, hg, hd => by
+    simp only [GoodImportsL, Bool.and_eq_true] at hg
+    simp only [visitKids]
+    exact visitKids_dc_none o env cs k pos (i + 1) _ hg.2 (visit_dc_none o env c (kidPos k pos i) st hg.1 hd)
+end
+
+
+-- non-vacuity: a tree with an import of `ref` from 'vue', JSX, and a call spelled defineComponent meets the hypothesis
+example : GoodImportsL [.mk .importDecl ["false", "evaluation"] [nList [.mk .importSpec ["false"] [nIdent "ref" "b2", nNone]], nStr "vue", nNone],
+    .mk .exprStmt [] [.mk .jsxElement [] [.mk .jsxOpening [] [nIdent "div" "u", nList [], nNone], nList [], nNone]],
+    .mk .exprStmt [] [.mk .call ["usr"] [nIdent "defineComponent" "u", nList [], nNone]]] = true := by
+  decide
+
+-- and an import that does bind it is rejected by the hypothesis
+example : GoodImports (.mk .importDecl ["false", "evaluation"]
+    [nList [.mk .importSpec ["false"] [nIdent "defineComponent" "b2", nNone]], nStr "vue", nNone]) = false := by
   decide
 
 end VueJsx
